@@ -110,7 +110,7 @@ func main() {
 			defer func() {
 				if r := recover(); r != nil {
 					js, _ := json.Marshal(k)
-					line, impl = "req crashed case=x"+hex.EncodeToString(js), "crash"
+					line, impl = "req v=2 crashed case=x"+hex.EncodeToString(js), "crash"
 				}
 			}()
 			line, impl = w.run(k)
